@@ -95,18 +95,20 @@ def generate(seed, tier, batch):
         if routine == "shrink" and sel == "degree":
             sel = "uniform"
         start = sorted(r.sample(range(n), r.randint(1, n)))
-        return {"kind": "clique", "graph": g, "routine": routine, "select": sel, "weights": wts, "start": start, "iterations": r.randint(1, 3), "sseed": seed}
+        return {"kind": "clique", "graph": g, "routine": routine, "select": sel, "weights": wts, "start": start, "iterations": r.randint(1, 3), "sseed": seed,
+                "edit_between": r.random() < 0.3}
     if batch == "subgraph":
         g = gen_graph(r, 10 if big else 8)
         n = g["n"]
         sel = r.choice(["uniform", "weight", "weight"])
         wts = [r.choice([1, 1, 2, 3]) for _ in range(n)] if sel == "weight" else None
-        routine = r.choice(["resize", "resize", "update_list", "search"])
+        routine = r.choice(["resize", "resize", "update_list", "search", "search"])
         start = sorted(r.sample(range(n), r.randint(1, n)))
         lo = r.randint(1, n)
         hi = r.randint(lo, n)
         return {"kind": "subgraph", "graph": g, "routine": routine, "select": sel, "weights": wts, "start": start, "min": lo, "max": hi,
-                "max_count": r.randint(1, 3), "subs": [sorted(r.sample(range(n), r.randint(1, n))) for _ in range(r.randint(1, 4))], "sseed": seed}
+                "max_count": r.randint(1, 3), "subs": [sorted(r.sample(range(n), r.randint(1, n))) for _ in range(r.randint(1, 4))], "sseed": seed,
+                "edit_between": r.random() < 0.5}
     # similarity
     routine = r.choice(["orbit_to_sample", "event_to_sample"])
     modes = r.randint(1, 12 if big else 8)
@@ -385,16 +387,40 @@ def drive(w, script, call, cap, seeded_extra=40):
 
 
 def execute(script, w):
+    """graph routines are run twice when `edit_between` is set: the second time after the *same graph object* was edited in place
+    (a history: results must describe the graph as it is now, whatever an earlier call may have remembered about the object)"""
+    if script["kind"] in ("clique", "subgraph") and script.get("edit_between") and script["graph"]["edges"] and script["routine"] != "search" or \
+            (script["kind"] == "clique" and script.get("edit_between") and script["graph"]["edges"]):
+        g = script["graph"]
+        G = mkgraph(g)
+        a = adj(g)
+        _execute_once(script, w, G, a, ())
+        if w.violations:
+            return
+        rr = random.Random(script["sseed"] + 17)
+        x_, y_ = rr.choice(g["edges"])
+        G.remove_edge(x_, y_)
+        a[x_].discard(y_)
+        a[y_].discard(x_)
+        w.step("edit_graph_in_place", removed=[x_, y_])
+        w.probes["graph_edited_in_place_between_calls"] += 1
+        g2 = dict(g, edges=[e for e in g["edges"] if tuple(e) != (x_, y_)])
+        _execute_once(dict(script, graph=g2, edit_between=False), w, G, a, ("history=edit-graph-in-place",))
+        return
+    _execute_once(script, w, None, None, ())
+
+
+def _execute_once(script, w, G_in, a_in, feats_extra):
     from strawberryfields.apps import clique, subgraph, similarity
 
     tier_cap = CAP["quick"] if script.get("cap") is None else script["cap"]
     kind = script["kind"]
-    feats = ["routine=" + script["routine"]]
+    feats = ["routine=" + script["routine"]] + list(feats_extra)
     if kind in ("clique", "subgraph"):
         feats.append("select=" + script["select"])
         g = script["graph"]
-        a = adj(g)
-        G = mkgraph(g)
+        a = a_in if a_in is not None else adj(g)
+        G = G_in if G_in is not None else mkgraph(g)
         sel = script["select"]
         node_select = script["weights"] if sel == "weight" else sel
     if kind == "clique":
@@ -417,7 +443,19 @@ def execute(script, w):
             allowed = ref_shrink(script, a, start, lambda nodes: is_clique(a, nodes))
             call = lambda: tuple(clique.shrink(list(start), G, node_select=node_select))  # noqa
         else:
-            allowed = None
+            # documented: phases of greedy growth and plateau search (swap), `iterations` times or until a swap changes nothing,
+            # every phase choosing nodes by the given rule
+            allowed = set()
+
+            def rec_search(cl, it):
+                for grown in ref_grow(script, a, list(cl)):
+                    for swapped in ref_swap(script, a, list(grown)):
+                        if set(grown) == set(swapped) or it - 1 == 0:
+                            allowed.add(tuple(sorted(swapped)))
+                        else:
+                            rec_search(swapped, it - 1)
+
+            rec_search(tuple(start), script["iterations"])
             call = lambda: tuple(clique.search(list(start), G, script["iterations"], node_select=node_select))  # noqa
         results, complete = drive(w, script, call, tier_cap)
         got = {tuple(v[0]) for v in results.values()}
@@ -527,7 +565,23 @@ def execute(script, w):
         except ValueError:
             w.probes["search_rejected_input"] += 1
             return
-        for res, _, _ in results.values():
+        all_results = [v[0] for v in results.values()]
+        if script.get("edit_between") and g["edges"]:
+            # history: the same graph *object* is edited in place and searched again - results must describe the edited graph
+            rr = random.Random(script["sseed"])
+            x_, y_ = rr.choice(g["edges"])
+            G.remove_edge(x_, y_)
+            a[x_].discard(y_)
+            a[y_].discard(x_)
+            w.step("edit_graph_in_place", removed=[x_, y_])
+            w.probes["graph_edited_in_place_between_calls"] += 1
+            try:
+                results2, _ = drive(w, script, call, min(tier_cap, 20), seeded_extra=5)
+            except ValueError:
+                return
+            all_results = [v[0] for v in results2.values()]
+            feats = feats + ["history=edit-graph-in-place"]
+        for res in all_results:
             for size, lst in res:
                 if not (lo <= size <= hi) or len(lst) > mc:
                     w.violation("structure", "search-sizes-and-counts", {"size": size, "n": len(lst), "max_count": mc}, feats)
